@@ -224,6 +224,7 @@ func (f *frame) enterLoop(li *loopInfo, in *State) *State {
 		f.havocHeaps(hs, ws.Sorted())
 	}
 	f.havocNext(hs)
+	hs.tagLo = hs.next // ids handed out by earlier iterations: covered by the loop invariants, not by the bookkeeping
 	li.hdrVals = map[ssa.Value]Val{}
 	for _, instr := range b.Instrs {
 		phi, ok := instr.(*ssa.Phi)
@@ -440,6 +441,9 @@ func (f *frame) execInstr(b *ssa.BasicBlock, instr ssa.Instruction, st *State) {
 		if isString(in.X.Type()) {
 			c.oblige(st, f.path, "safety:index", fmt.Sprintf("(and (<= 0 %s) (< %s (Str_len %s)))", idx, idx, x.T), "string index in range", in.Pos())
 			f.def(in, fmt.Sprintf("(Str_at %s %s)", x.T, idx), st)
+		} else if at, ok := in.X.Type().Underlying().(*types.Array); ok && strings.HasPrefix(g.TE.SortOf(in.X.Type()), "(Array Int ") {
+			c.oblige(st, f.path, "safety:index", fmt.Sprintf("(and (<= 0 %s) (< %s %d))", idx, idx, at.Len()), "array index in range", in.Pos())
+			f.def(in, fmt.Sprintf("(select %s %s)", x.T, idx), st)
 		} else {
 			subsetf("Index on %s", in.X.Type())
 		}
@@ -454,6 +458,7 @@ func (f *frame) execInstr(b *ssa.BasicBlock, instr ssa.Instruction, st *State) {
 		f.def(in, fmt.Sprintf("(mkslice %s 0 %s %s)", id, ln, cp), st)
 	case *ssa.MakeMap:
 		id := f.allocID(st)
+		f.tagAllocKind(st, id, in.Type(), false)
 		ref := fmt.Sprintf("(obj %s)", id)
 		dom, _, ks, _ := g.TE.MapHeaps(in.Type())
 		c.assume(st, fmt.Sprintf("(= (select %s %s) ((as const (Array %s Bool)) false))", st.Heap(dom), ref, ks))
@@ -575,9 +580,6 @@ func (f *frame) execUnOp(in *ssa.UnOp, st *State) {
 	case token.MUL:
 		pt := in.X.Type().Underlying().(*types.Pointer)
 		f.nilCheck(st, x, in.Pos(), "load")
-		if _, isArr := pt.Elem().Underlying().(*types.Array); isArr {
-			subsetf("load of array value")
-		}
 		t := f.load(x, pt.Elem(), st)
 		name := c.define(valName(in), c.g.TE.SortOf(pt.Elem()), t)
 		c.assume(st, c.wellFormed(name, pt.Elem(), st.next))
@@ -699,6 +701,8 @@ func (f *frame) execSlice(in *ssa.Slice, st *State) {
 		c.oblige(st, f.path, "safety:slice", fmt.Sprintf("(and (<= 0 %s) (<= %s %s) (<= %s (scap %s)))", lo, lo, hi, hi, x.T), "slice bounds in range", in.Pos())
 		// s[lo:hi] of a nil slice stays nil (arr 0)
 		f.def(in, fmt.Sprintf("(mkslice (sarr %s) (+ (soff %s) %s) (- %s %s) (- (scap %s) %s))", x.T, x.T, lo, hi, lo, x.T, lo), st)
+		// the cells of the sub-slice named through the operand (a term to match for quantified facts about x[i])
+		c.assume(st, fmt.Sprintf("(forall ((i Int)) (! (= (selem %s i) (selem %s (+ %s i))) :pattern ((selem %s i))))", f.val(in).T, x.T, lo, f.val(in).T))
 	case *types.Basic: // string
 		hi := fmt.Sprintf("(Str_len %s)", x.T)
 		if in.High != nil {
@@ -737,6 +741,7 @@ func (f *frame) execConvert(in *ssa.Convert, st *State) {
 		n := f.c.declare(valName(in), SSlice)
 		_ = uf
 		id := f.allocID(st)
+		f.tagAllocKind(st, id, in.Type(), true)
 		f.c.assume(st, fmt.Sprintf("(= %s (mkslice %s 0 (Str_len %s) (Str_len %s)))", n, id, x.T, x.T))
 		f.setVal(in, Val{T: n, Typ: in.Type()})
 	case from == SSlice && to == SStr:
